@@ -82,9 +82,11 @@ Fixpoint digits_us (s : str) (acc : N) (prev_digit : bool) : option N :=
   end.
 Definition py_int (s : str) : option Z :=
   match strip_sp s with
-  | "-"%char :: r => option_map (fun n => (- Z.of_N n)%Z) (digits_us r 0 false)
-  | "+"%char :: r => option_map Z.of_N (digits_us r 0 false)
-  | r => option_map Z.of_N (digits_us r 0 false)
+  | c :: r =>
+      if Ascii.eqb c "-"%char then option_map (fun n => (- Z.of_N n)%Z) (digits_us r 0 false)
+      else if Ascii.eqb c "+"%char then option_map Z.of_N (digits_us r 0 false)
+      else option_map Z.of_N (digits_us (c :: r) 0 false)
+  | [] => None
   end.
 
 (* s.split("/") *)
